@@ -208,6 +208,15 @@ func (g *gen) starTarget(i int) bool {
 	return false
 }
 
+func (g *gen) anyCycle() bool {
+	for _, c := range g.inCyc {
+		if c {
+			return true
+		}
+	}
+	return false
+}
+
 func (g *gen) inDegree(i int) int {
 	n := 0
 	for _, es := range g.edges {
@@ -344,6 +353,11 @@ func (g *gen) body(i int) Module {
 		// throwing CommonJS module has a single importer by construction
 		if thr := g.cfg.AllowThrow && i != 0 && g.chance(8, "throw"); thr && g.inDegree(i) > 1 {
 			g.labels["cjs-throw-suppressed-multiple-importers"] = true
+		} else if thr && g.anyCycle() {
+			// When the evaluation of an import cycle fails, every module of the cycle is marked as failed natively
+			// (importing any of them later rejects); the bundle only remembers the failure of the module whose
+			// initialiser threw (known finding C02-errored-cycle-member-importable). Graphs with cycles get no throws.
+			g.labels["throw-suppressed-in-cyclic-graph"] = true
 		} else if thr {
 			w(`if (p(%d, true)) throw new TypeError("boom %d");`, g.id(), i)
 			g.labels["top-level-throw"] = true
@@ -468,7 +482,10 @@ func (g *gen) body(i int) Module {
 			w(`var dv%d = { d: %d }; export { dv%d as default };`, i, i, i)
 		}
 	}
-	if g.cfg.AllowThrow && i != 0 && !g.inCyc[i] && g.chance(8, "throw") {
+	if thr := g.cfg.AllowThrow && i != 0 && !g.inCyc[i] && g.chance(8, "throw"); thr && g.anyCycle() {
+		// known finding C02-errored-cycle-member-importable: see the CommonJS site above
+		g.labels["throw-suppressed-in-cyclic-graph"] = true
+	} else if thr {
 		w(`if (p(%d, true)) throw new RangeError("boom %d");`, g.id(), i)
 		g.labels["top-level-throw"] = true
 	}
